@@ -251,29 +251,43 @@ func (g *Gen) prelude(qf bool) string {
 	if g.usedStr && !qf {
 		sb.WriteString(`(assert (= (strlen str_empty) #x0000000000000000))
 (assert (forall ((s Str)) (! (and (bvsle #x0000000000000000 (strlen s)) (bvsle (strlen s) #x0001000000000000)) :pattern ((strlen s)))))
-(assert (forall ((s Str) (lo (_ BitVec 64)) (hi (_ BitVec 64))) (! (= (strlen (str_sub s lo hi)) (bvsub hi lo)) :pattern ((str_sub s lo hi)))))
-(assert (forall ((s Str) (lo (_ BitVec 64)) (hi (_ BitVec 64)) (i (_ BitVec 64))) (! (= (strat (str_sub s lo hi) i) (strat s (bvadd lo i))) :pattern ((strat (str_sub s lo hi) i)))))
-(assert (forall ((a Str) (b Str)) (! (= (strlen (str_cat a b)) (bvadd (strlen a) (strlen b))) :pattern ((str_cat a b)))))
-(assert (forall ((a (Array (_ BitVec 64) (_ BitVec 8))) (o (_ BitVec 64)) (n (_ BitVec 64))) (! (= (strlen (str_of_bytes a o n)) n) :pattern ((str_of_bytes a o n)))))
-(assert (forall ((a (Array (_ BitVec 64) (_ BitVec 8))) (o (_ BitVec 64)) (n (_ BitVec 64)) (i (_ BitVec 64))) (! (= (strat (str_of_bytes a o n) i) (select a (bvadd o i))) :pattern ((strat (str_of_bytes a o n) i)))))
+(assert (forall ((s Str) (lo (_ BitVec 64)) (hi (_ BitVec 64))) (! (=> (and (bvsle #x0000000000000000 lo) (bvsle lo hi) (bvsle hi (strlen s))) (= (strlen (str_sub s lo hi)) (bvsub hi lo))) :pattern ((str_sub s lo hi)))))
+(assert (forall ((s Str) (lo (_ BitVec 64)) (hi (_ BitVec 64)) (i (_ BitVec 64))) (! (=> (and (bvsle #x0000000000000000 lo) (bvsle lo hi) (bvsle hi (strlen s)) (bvsle #x0000000000000000 i) (bvslt i (bvsub hi lo))) (= (strat (str_sub s lo hi) i) (strat s (bvadd lo i)))) :pattern ((strat (str_sub s lo hi) i)))))
+(assert (forall ((a Str) (b Str)) (! (=> (bvsle (bvadd (strlen a) (strlen b)) #x0001000000000000) (= (strlen (str_cat a b)) (bvadd (strlen a) (strlen b)))) :pattern ((str_cat a b)))))
+(assert (forall ((a (Array (_ BitVec 64) (_ BitVec 8))) (o (_ BitVec 64)) (n (_ BitVec 64))) (! (=> (and (bvsle #x0000000000000000 n) (bvsle n #x0001000000000000)) (= (strlen (str_of_bytes a o n)) n)) :pattern ((str_of_bytes a o n)))))
+(assert (forall ((a (Array (_ BitVec 64) (_ BitVec 8))) (o (_ BitVec 64)) (n (_ BitVec 64)) (i (_ BitVec 64))) (! (=> (and (bvsle #x0000000000000000 i) (bvslt i n) (bvsle n #x0001000000000000)) (= (strat (str_of_bytes a o n) i) (select a (bvadd o i)))) :pattern ((strat (str_of_bytes a o n) i)))))
 (assert (forall ((s Str) (i (_ BitVec 64))) (! (= (select (str_bytes s) i) (strat s i)) :pattern ((select (str_bytes s) i)))))
 `)
 	}
 	return sb.String()
 }
 
-func (g *Gen) body(qf bool) string {
+func isQuantified(a string) bool {
+	return strings.Contains(a, "(forall ") || strings.Contains(a, "(exists ")
+}
+
+func (g *Gen) declsText() string {
 	var sb strings.Builder
 	for _, d := range g.decls {
 		sb.WriteString(d)
 		sb.WriteByte('\n')
 	}
+	return sb.String()
+}
+
+// body: declarations plus the assumptions made before sequence point 'upto'.
+func (g *Gen) body(qf bool, upto int) string {
+	var sb strings.Builder
+	sb.WriteString(g.declsText())
 	for _, a := range g.asms {
-		if qf && (strings.Contains(a, "(forall ") || strings.Contains(a, "(exists ")) {
+		if a.seq >= upto {
+			continue
+		}
+		if qf && isQuantified(a.text) {
 			continue
 		}
 		sb.WriteString("(assert ")
-		sb.WriteString(a)
+		sb.WriteString(a.text)
 		sb.WriteString(")\n")
 	}
 	return sb.String()
@@ -281,25 +295,57 @@ func (g *Gen) body(qf bool) string {
 
 func oblTerm(o *Obligation) string { return sImp(o.Reach, o.Goal) }
 
+// query: the obligations are checked in program order; obligation k may use
+// exactly the assumptions made before it. For a batch this is encoded as
+//   A(<o1) and not( G1 and (A[o1,o2) => G2) and (A[o1,o3) => G3) ... )
 func (g *Gen) query(obls []*Obligation, qf bool) string {
+	sorted := append([]*Obligation{}, obls...)
+	sort.SliceStable(sorted, func(i, j int) bool { return sorted[i].Seq < sorted[j].Seq })
+	first := sorted[0].Seq
+	var sb strings.Builder
+	sb.WriteString(g.prelude(qf))
+	sb.WriteString(g.body(qf, first))
 	var gs []string
-	var priv strings.Builder
-	for _, o := range obls {
-		gs = append(gs, oblTerm(o))
-		if o.Origin != "" {
-			for _, a := range g.privAsms[o.Origin] {
-				if qf && (strings.Contains(a, "(forall ") || strings.Contains(a, "(exists ")) {
-					continue
+	prefix := "true"
+	prev := first
+	for k, o := range sorted {
+		if k > 0 {
+			var between []string
+			for _, a := range g.asms {
+				if a.seq >= prev && a.seq < o.Seq && !(qf && isQuantified(a.text)) {
+					between = append(between, a.text)
 				}
-				priv.WriteString("(assert " + a + ")\n")
 			}
+			if len(between) > 0 {
+				name := fmt.Sprintf("batch!prefix!%d", k)
+				fmt.Fprintf(&sb, "(define-fun %s () Bool %s)\n", name, sAnd(append([]string{prefix}, between...)...))
+				prefix = name
+			}
+			prev = o.Seq
 		}
+		goal := oblTerm(o)
+		if o.Origin != "" {
+			var priv []string
+			for _, a := range g.privAsms[o.Origin] {
+				if a.seq < o.Seq && !(qf && isQuantified(a.text)) {
+					priv = append(priv, a.text)
+				}
+			}
+			goal = sImp(sAnd(priv...), goal)
+		}
+		gs = append(gs, sImp(prefix, goal))
 	}
-	return g.prelude(qf) + g.body(qf) + priv.String() + "(assert (not " + sAnd(gs...) + "))\n(check-sat)\n"
+	sb.WriteString("(assert (not " + sAnd(gs...) + "))\n(check-sat)\n")
+	return sb.String()
 }
 
 func (g *Gen) coverQuery() string {
-	return g.prelude(true) + g.body(true) + "(assert " + sOr(g.covers...) + ")\n(check-sat)\n"
+	return g.prelude(true) + g.body(true, 1<<30) + "(assert " + sOr(g.covers...) + ")\n(check-sat)\n"
+}
+
+// coverQueryFull: the same with the quantified assumptions (detects inconsistent axioms)
+func (g *Gen) coverQueryFull() string {
+	return g.prelude(false) + g.body(false, 1<<30) + "(assert " + sOr(g.covers...) + ")\n(check-sat)\n"
 }
 
 func (g *Gen) hasQuantAsm() bool {
@@ -307,7 +353,7 @@ func (g *Gen) hasQuantAsm() bool {
 		return true
 	}
 	for _, a := range g.asms {
-		if strings.Contains(a, "(forall ") || strings.Contains(a, "(exists ") {
+		if isQuantified(a.text) {
 			return true
 		}
 	}
@@ -426,6 +472,17 @@ func (ur *UnitResult) discharge(opt Options) {
 			ur.Cover = ans.Status
 			if !opt.KeepSMT {
 				os.Remove(file)
+			}
+			if ur.Quant && ans.Status != "unsat" {
+				// also with the quantified assumptions: an inconsistent axiom set must not go unnoticed
+				file2 := write(ur.Unit+"_cover_full", g.coverQueryFull())
+				ans2, _ := race(file2, opt.TimeoutMs, 1, opt.Solvers)
+				if ans2.Status == "unsat" {
+					ur.Cover = "unsat"
+				}
+				if !opt.KeepSMT {
+					os.Remove(file2)
+				}
 			}
 		}()
 	}
